@@ -105,6 +105,7 @@ class C13(Oracle):
                      "what": describe_change(kind, val, now[2])},
                     {"op": k},
                 )
+        self.__dict__.setdefault("_history", []).append(op)
         # the twin world replays the same operation
         tout = self.twin.execute(op)
         if tout.status != out.status:
@@ -169,6 +170,23 @@ class C13(Oracle):
                 if tout.result != text:
                     raise Violation("C13", "twin", fmt + "-text-differs",
                                     {"operation": op, "primary": text[:600], "twin": tout.result[:600]})
+            # a *pristine* twin: a world rebuilt from the constructing operations only, on
+            # which no exporter, comparison or read-only accessor has ever run, must export
+            # the same text ("two documents built by the same calls")
+            if fmt != "rdf" and (self.counters.get("pristine_twin_checks", 0) < 6):
+                pw = World(self.cfg)
+                for hop in self._history[:-1]:
+                    if hop[0] not in PURE or hop[0] in ("unified", "flattened", "roundtrip") or (
+                            # get_attribute / value / get_asserted_types hand out the live value
+                            # set (and get_attribute may register the name's namespace): not
+                            # among the operations C13 lists, so the pristine twin runs them too
+                            hop[0] == "peek" and hop[2] in ("attribute", "value", "types")):
+                        pw.execute(hop)
+                pout = pw.execute(op)
+                self.count("pristine_twin_checks")
+                if pout.status == "ok" and pout.result != text:
+                    raise Violation("C13", "twin", fmt + "-text-depends-on-earlier-read-only-calls",
+                                    {"operation": op, "primary": text[:800], "pristine_twin": pout.result[:800]})
             # the second call must not have mutated anything either
             post2 = snapshot(w)
             for oid, (kind, h, val) in self.pre.items():
